@@ -109,6 +109,10 @@ def run(ctx: Ctx):
     ctx.attempt(rules.rule_activity_writes, ctx, "D2")
     # D3 dispatcher filter
     dispatcher_filter(ctx)
+    # "... at most one vehicle is travelling to any given request": the pairs the dispatcher turns into instructions are read from the
+    # solver's index arrays (distinct rows, distinct columns -- trusted) and from nothing else (C12's table / read-back clauses)
+    from . import c12 as _c12
+    ctx.attempt(_c12.matrix, ctx)
     ctx.floor("TS.pairing", 13)
     ctx.floor("TS.enter-site", 3)
     ctx.not_decided += ["that at most one vehicle travels to a request under controllers other than the built-in dispatcher",
